@@ -15,7 +15,7 @@ Modes == {"workspace", "workspace_ppl", "workspace_lone", "single"}     \* works
 \* line-protocol files: the input is the FIRST POINT of the file, not its first line: comment lines and blank lines before
 \* it are skipped, a quoted string field may contain a line break, later points are ignored
 \* text files: the WHOLE content becomes field `message` (several lines, surrounding blanks and a final line break included)
-Inputs == {"none", "text", "text_multiline", "lineprotocol", "lp_comment_first", "lp_blank_first", "lp_newline_in_field"}
+Inputs == {"none", "text", "text_multiline", "text_empty", "text_blank", "lineprotocol", "lp_comment_first", "lp_blank_first", "lp_newline_in_field"}
 Outputs == {"json", "lineprotocol"}
 \* crlfField: the script file has CR LF line ends, also inside a multi-line string literal whose value it stores: the script
 \* that runs is the file's bytes, nothing is normalised on the way
@@ -43,7 +43,7 @@ Init == /\ cfg \in [mode : Modes, input : Inputs, output : Outputs, kind : Kinds
         /\ (cfg.mode = "workspace_lone" => cfg.kind \in {"noop", "addField", "linkErr", "selfUse", "runErr"})
         /\ (cfg.kind = "nilField" => cfg.output = "json")                           \* line protocol has no spelling for nil
         /\ (cfg.kind = "clearMeas" => cfg.output = "json")                          \* line protocol cannot encode an empty name
-        /\ (cfg.kind = "toTag" /\ cfg.input = "text_multiline" => cfg.output = "json")  \* ... nor a line break inside a tag value
+        /\ (cfg.kind = "toTag" /\ cfg.input \in {"text_multiline", "text_blank", "text_empty"} => cfg.output = "json")  \* ... nor a line break inside a tag value
         /\ phase = "start" /\ pt = None /\ snap = None /\ out = None /\ err = "none"
 
 Select == /\ phase = "start"
